@@ -197,7 +197,8 @@ def fcn_expectation(agent, m, eps=0.0):
     F = math.log(pf / p) / max(agent.mean_reversion_time, 1)
     C = math.log(p / m.get_market_price(t - w)) / max(w, 1)
     tot = agent.fundamental_weight + agent.chart_weight + agent.noise_weight
-    return p * math.exp(tws * (agent.fundamental_weight * F + agent.chart_weight * C + agent.noise_weight * eps) / tot), F, C
+    sign = 1.0 if getattr(agent, "is_chart_following", True) else -1.0  # a contrarian reads the chart term with the opposite sign; the weights are the same
+    return p * math.exp(tws * (agent.fundamental_weight * F + sign * agent.chart_weight * C + agent.noise_weight * eps) / tot), F, C
 
 
 def fcn_check_orders(agent, m, orders, E_expected=None):
@@ -245,7 +246,8 @@ def fcn_cases(draw, tier):
         lo = draw(st.integers(1, 30))
         params["timeWindowSize"] = [lo, lo + draw(st.integers(1, 40))]
     return {"state": draw(states(n_markets=(1, 2))), "params": params, "access": draw(st.sampled_from(["all", "first"])),
-            "agent_seed": draw(st.integers(0, 2**31 - 1)), "group_size": draw(st.sampled_from([1, 1, 2, 3]))}
+            "agent_seed": draw(st.integers(0, 2**31 - 1)), "group_size": draw(st.sampled_from([1, 1, 2, 3])),
+            "contrarian": draw(st.integers(0, 4)) == 0}
 
 
 def fcn_check(case):
@@ -258,8 +260,12 @@ def fcn_check(case):
     for g in range(case.get("group_size", 1)):
         ag = FCNAgent(agent_id=7 + g, prng=random.Random(case["agent_seed"] + 1000 * g), simulator=sim, name=f"fcn{g}")
         _call(ag.setup, settings=shared, accessible_markets_ids=acc)
+        if case.get("contrarian"):
+            ag.is_chart_following = False  # the public switch of FCNAgent (a user subclass sets it)
         group.append(ag)
     classes = set()
+    if case.get("contrarian"):
+        classes.add("contrarian")
     for ag in group:
         if "meanReversionTime" not in case["params"] and ag.mean_reversion_time != ag.time_window_size:
             raise Violation("C20.fcn_default_mean_reversion_time", f"agent {ag.name}: meanReversionTime is not configured, so it defaults to the agent's own "
